@@ -120,6 +120,21 @@ Theorem C07_audit_sound :
 Proof. exact audit_sound. Qed.
 Print Assumptions C07_audit_sound.
 
+(* 9. preferences outside the documented block size ids never yield a frame *)
+Theorem C07_invalid_blockSizeID_rejected :
+  forall c0 po dk,
+  bad_bsid (p_bsid (match po with Some p => p | None => prefs_null end)) ->
+  exists c1, compressBegin c0 po dk = (Err FC_ERR_maxBlockSize_invalid, c1).
+Proof. exact begin_rejects_bad_bsid. Qed.
+Print Assumptions C07_invalid_blockSizeID_rejected.
+
+Theorem C07_compressFrame_invalid_blockSizeID_rejected :
+  forall blk c src cdict po,
+  (let b := p_bsid (match po with Some p => p | None => prefs_null end) in b <> 0 /\ b < 4) ->
+  exists c1, compressFrame_usingCDict blk c src cdict po = (Err FC_ERR_maxBlockSize_invalid, c1).
+Proof. exact compressFrame_rejects_bad_bsid. Qed.
+Print Assumptions C07_compressFrame_invalid_blockSizeID_rejected.
+
 (* ---- the hypotheses are satisfiable, non-vacuously ---- *)
 Example C07_ex_contract : blk_contract strict_valid ex_blk /\ strict_valid [] ex_block = Some ex_content.
 Proof. split; [exact ex_blk_strict|vm_compute; reflexivity]. Qed.
@@ -147,12 +162,12 @@ Example C07_ex_audit_rejects_oversized :
                                ++ le_bytes 4 5 ++ [64; 97; 98; 99; 100] ++ le_bytes 4 0) = Some ([97; 98; 99; 100], []).
 Proof. vm_compute. split; reflexivity. Qed.
 
-(* the preferences enum ranges matter: with the out-of-range block size id 3 (and autoFlush, so that no
-   internal buffer of the bogus size is needed) compressBegin of the model, like the C function, succeeds
-   and writes a BD byte that no decoder accepts.  Reported as a contract gap, see the C07 report. *)
-Example C07_ex_bsid_unchecked :
-  match compressBegin cctx_zero (Some (mkPrefs 3 0 0 0 0 0 0 1 0)) NoDict with
-  | (Out hdr, _) => parse_desc (skipn 4 hdr) = None
-  | _ => False
-  end.
-Proof. vm_compute. reflexivity. Qed.
+(* F15 (fixed in /repo): a block size id outside {0,4..7} is refused by compressBegin* and by
+   compressFrame*; before the fix Begin accepted it and wrote a BD byte that no decoder accepts, or
+   (no autoFlush, linked blocks) sized its buffer from the error code *)
+Example C07_ex_bsid_rejected :
+  fst (compressBegin cctx_zero (Some (mkPrefs 3 0 0 0 0 0 0 1 0)) NoDict) = Err FC_ERR_maxBlockSize_invalid /\
+  fst (compressBegin cctx_zero (Some (mkPrefs 3 0 0 0 0 0 0 0 0)) NoDict) = Err FC_ERR_maxBlockSize_invalid /\
+  fst (compressBegin cctx_zero (Some (mkPrefs 8 1 0 0 0 0 9 0 0)) (UsingCDict [1; 2; 3])) = Err FC_ERR_maxBlockSize_invalid /\
+  compressFrame ex_blk ex_content (Some (mkPrefs 3 0 0 0 0 0 0 0 0)) = Err FC_ERR_maxBlockSize_invalid.
+Proof. vm_compute. repeat split; reflexivity. Qed.
